@@ -31,6 +31,20 @@ pub enum Op {
     CancelSend(usize, u32),
     /// Chunked send whose k-th chunk send is dropped at its p-th poll.
     CancelChunk(Vec<usize>, usize, u32),
+    /// Hold back / release the frames in flight towards the receiver (sink back-pressure).
+    Hold,
+    Release,
+    /// Same for the direction back to the sender (credits, port answers).
+    HoldRev,
+    ReleaseRev,
+    /// Wait until nothing is runnable.
+    Quiesce,
+    /// The peer endpoint sends an n-byte message in the opposite direction of the port.
+    PeerSend(usize),
+    /// Send k port-open requests over the port.
+    Connect(usize, bool),
+    /// Same, dropped at its p-th poll.
+    CancelConnect(usize, u32),
 }
 
 impl Op {
@@ -51,6 +65,14 @@ impl Op {
             Op::CancelChunk(v, k, p) => {
                 format!("xc{}#{k}@{p}", v.iter().map(|x| x.to_string()).collect::<Vec<_>>().join("+"))
             }
+            Op::Hold => "H".into(),
+            Op::Release => "R".into(),
+            Op::HoldRev => "Hr".into(),
+            Op::ReleaseRev => "Rr".into(),
+            Op::Quiesce => "Q".into(),
+            Op::PeerSend(n) => format!("ps{n}"),
+            Op::Connect(k, w) => format!("p{k}{}", if *w { "w" } else { "" }),
+            Op::CancelConnect(k, p) => format!("xp{k}@{p}"),
         }
     }
 }
@@ -71,6 +93,10 @@ pub struct Obs {
     pub cancel_landed: bool,
     pub multi_chunk: bool,
     pub setup_err: Option<String>,
+    pub connects_sent: usize,
+    pub requests_received: usize,
+    pub recv_cancels: usize,
+    pub peer: Option<tokio::sync::mpsc::UnboundedSender<(usize, tokio::sync::oneshot::Sender<bool>)>>,
 }
 
 /// How the receiver continues after `recv_chunk` reported `Cancelled`.
@@ -80,6 +106,9 @@ pub enum RecvStyle {
     AnyAfterCancel,
     /// Use `recv()` only (whole messages; `ExceedsMaxDataSize` for big ones is skipped by the script).
     RecvOnly,
+    /// Like `AnyAfterCancel`, but every `recv_any` call is dropped at its p-th poll (or at
+    /// quiescence) and then issued again, as `select!` loops such as `chmux::forward` do.
+    CancelEach(u32),
 }
 
 pub struct PortScenario {
@@ -112,7 +141,7 @@ impl PortScenario {
     }
 }
 
-pub async fn run_script(tx: &mut chmux::Sender, script: &[Op], obs: &Shared<Obs>) {
+pub async fn run_script(env: &Env, tx: &mut chmux::Sender, script: &[Op], obs: &Shared<Obs>) {
     for (i, op) in script.iter().enumerate() {
         match op {
             Op::Send(n) => {
@@ -176,6 +205,55 @@ pub async fn run_script(tx: &mut chmux::Sender, script: &[Op], obs: &Shared<Obs>
                     Err(e) => o.results.push(format!("err:{e:?}")),
                 }
             }
+            Op::Hold => env.dir(0, 0).hold(true),
+            Op::Release => env.dir(0, 0).hold(false),
+            Op::HoldRev => env.dir(0, 1).hold(true),
+            Op::ReleaseRev => env.dir(0, 1).hold(false),
+            Op::Quiesce => env.quiesce().await,
+            Op::PeerSend(n) => {
+                let peer = obs.lock().unwrap().peer.clone();
+                if let Some(peer) = peer {
+                    let (ack_tx, ack_rx) = tokio::sync::oneshot::channel();
+                    let _ = peer.send((*n, ack_tx));
+                    let _ = ack_rx.await;
+                }
+            }
+            Op::Connect(k, wait) => {
+                let mut ports = Vec::new();
+                for _ in 0..*k {
+                    ports.push(chmux::PortReq::new(tx.port_allocator().allocate().await));
+                }
+                let r = tx.connect(ports, *wait).await;
+                let mut o = obs.lock().unwrap();
+                match r {
+                    Ok(c) => {
+                        o.connects_sent += c.len();
+                        o.results.push("ok".into());
+                    }
+                    Err(e) => o.results.push(format!("err:{e:?}")),
+                }
+            }
+            Op::CancelConnect(k, p) => {
+                let mut ports = Vec::new();
+                for _ in 0..*k {
+                    ports.push(chmux::PortReq::new(tx.port_allocator().allocate().await));
+                }
+                let r = cancel_at(tx.connect(ports, true), *p).await;
+                let mut o = obs.lock().unwrap();
+                match r {
+                    Cancelled::Done(Ok(c)) => {
+                        o.connects_sent += c.len();
+                        o.results.push("ok(not cancelled)".into());
+                    }
+                    Cancelled::Done(Err(e)) => o.results.push(format!("err:{e:?}")),
+                    Cancelled::Cancelled(polls) => {
+                        if polls > 0 {
+                            o.cancel_landed = true;
+                        }
+                        o.results.push(format!("cancelled@{polls}"));
+                    }
+                }
+            }
             Op::CancelSend(n, p) => {
                 let data = payload(i, *n);
                 let r = cancel_at(tx.send(data.clone()), *p).await;
@@ -195,53 +273,58 @@ pub async fn run_script(tx: &mut chmux::Sender, script: &[Op], obs: &Shared<Obs>
                 }
             }
             Op::CancelChunk(parts, kc, p) => {
+                // Chunks before `kc` are sent normally; the rest of the operation (chunks kc.. and
+                // finish) is one future that is dropped at its p-th poll.
                 let total: usize = parts.iter().sum();
                 let data = payload(i, total);
                 let mut off = 0;
-                let mut cs = Some(tx.send_chunks());
-                let mut done = false;
-                for (k, part) in parts.iter().enumerate() {
+                let mut cs_opt = Some(tx.send_chunks());
+                let mut err = None;
+                for part in parts.iter().take(*kc) {
                     let chunk = data.slice(off..off + part);
                     off += part;
-                    let c = cs.take().unwrap();
-                    if k == *kc {
-                        match cancel_at(c.send(chunk), *p).await {
-                            Cancelled::Done(Ok(next)) => cs = Some(next),
-                            Cancelled::Done(Err(e)) => {
-                                obs.lock().unwrap().results.push(format!("err:{e:?}"));
-                                done = true;
-                                break;
-                            }
-                            Cancelled::Cancelled(polls) => {
-                                let mut o = obs.lock().unwrap();
-                                if polls > 0 {
-                                    o.cancel_landed = true;
-                                }
-                                o.results.push(format!("chunk-cancelled@{polls}"));
-                                done = true;
-                                break;
-                            }
-                        }
-                    } else {
-                        match c.send(chunk).await {
-                            Ok(next) => cs = Some(next),
-                            Err(e) => {
-                                obs.lock().unwrap().results.push(format!("err:{e:?}"));
-                                done = true;
-                                break;
-                            }
+                    match cs_opt.take().unwrap().send(chunk).await {
+                        Ok(next) => cs_opt = Some(next),
+                        Err(e) => {
+                            err = Some(format!("err:{e:?}"));
+                            break;
                         }
                     }
                 }
-                if !done {
-                    let r = cs.take().unwrap().finish().await;
-                    let mut o = obs.lock().unwrap();
-                    match r {
-                        Ok(()) => {
-                            o.completed.push(data.to_vec());
-                            o.results.push("ok(not cancelled)".into());
+                if let Some(e) = err {
+                    obs.lock().unwrap().results.push(e);
+                    continue;
+                }
+                let cs = cs_opt.take().unwrap();
+                let rest: Vec<bytes::Bytes> = parts
+                    .iter()
+                    .skip(*kc)
+                    .map(|part| {
+                        let c = data.slice(off..off + part);
+                        off += part;
+                        c
+                    })
+                    .collect();
+                let fut = async move {
+                    let mut cs = cs;
+                    for c in rest {
+                        cs = cs.send(c).await?;
+                    }
+                    cs.finish().await
+                };
+                let r = cancel_at(fut, *p).await;
+                let mut o = obs.lock().unwrap();
+                match r {
+                    Cancelled::Done(Ok(())) => {
+                        o.completed.push(data.to_vec());
+                        o.results.push("ok(not cancelled)".into());
+                    }
+                    Cancelled::Done(Err(e)) => o.results.push(format!("err:{e:?}")),
+                    Cancelled::Cancelled(polls) => {
+                        if polls > 0 {
+                            o.cancel_landed = true;
                         }
-                        Err(e) => o.results.push(format!("err:{e:?}")),
+                        o.results.push(format!("chunks-cancelled@{polls}"));
                     }
                 }
             }
@@ -272,7 +355,18 @@ pub async fn receive_all(rx: &mut chmux::Receiver, style: RecvStyle, obs: &Share
                     }
                 }
             },
-            RecvStyle::AnyAfterCancel => match rx.recv_any().await {
+            RecvStyle::AnyAfterCancel | RecvStyle::CancelEach(_) => match {
+                if let RecvStyle::CancelEach(p) = style {
+                    loop {
+                        match cancel_at(rx.recv_any(), p.max(1)).await {
+                            Cancelled::Done(r) => break r,
+                            Cancelled::Cancelled(_) => obs.lock().unwrap().recv_cancels += 1,
+                        }
+                    }
+                } else {
+                    rx.recv_any().await
+                }
+            } {
                 Ok(Some(Received::Data(buf))) => {
                     let v: Vec<u8> = buf.into();
                     let mut o = obs.lock().unwrap();
@@ -303,8 +397,10 @@ pub async fn receive_all(rx: &mut chmux::Receiver, style: RecvStyle, obs: &Share
                         }
                     }
                 }
-                Ok(Some(Received::Requests(_))) => {
-                    obs.lock().unwrap().recv_events.push("requests".into());
+                Ok(Some(Received::Requests(reqs))) => {
+                    let mut o = obs.lock().unwrap();
+                    o.requests_received += reqs.len();
+                    o.recv_events.push(format!("requests:{}", reqs.len()));
                 }
                 Ok(None) => {
                     obs.lock().unwrap().recv_end = Some("eos".into());
@@ -359,8 +455,9 @@ impl Scenario for PortScenario {
             };
             env.explore(true);
             let o3 = o2.clone();
+            let env2 = env.clone();
             let sender = env.spawn("sender", 1, async move {
-                run_script(&mut tx, &script, &o3).await;
+                run_script(&env2, &mut tx, &script, &o3).await;
                 o3.lock().unwrap().sender_done = true;
                 tx
             });
